@@ -350,8 +350,20 @@ pub fn gen_c12(tier: &str, seed: u64, out: &str) -> Value {
             }
         }
     }
+    // parents sitting on anomalies of the face -> sphere map (continuity scan shared with C04): a tear of the map moves
+    // a child's centre relative to its parent's although both tiles are where they should be in the plane
+    let flags = crate::geo::continuity_flags(tier);
+    let mut n_flag = 0u64;
+    for ll in &flags {
+        for r in [14, 18, 21, 23, 24, 25, 26, 27, 28] {
+            if let Ok(p) = a5::lonlat_to_cell(*ll, r) {
+                for c in a5::cell_to_children(p, None).unwrap_or_default() { t.emit(childgeom_event(p, c)); n_geo += 1; n_flag += 1; }
+            }
+        }
+        t.cut();
+    }
     t.finish();
-    json!({"files": t.files, "events": t.events, "tile_pairs_classified": n_cfg, "planar_facts": n_facts, "sphere_pairs": n_geo,
+    json!({"files": t.files, "events": t.events, "tile_pairs_classified": n_cfg, "pairs_at_continuity_anomalies": n_flag, "planar_facts": n_facts, "sphere_pairs": n_geo,
            "samples": [childgeom_event(all_cells(2)[17], a5::cell_to_children(all_cells(2)[17], None).unwrap()[2])]})
 }
 
